@@ -380,6 +380,12 @@ func (n *Node) HashesMatch(th map[int32]string) bool {
 			continue
 		}
 
+		// An empty value is not a hash (AddHash refuses it and the hash index
+		// of GetMatchingNode skips it): such an algorithm is not a common one.
+		if hashValue == "" || n.Hashes[algo] == "" {
+			continue
+		}
+
 		if n.Hashes[algo] != hashValue {
 			return false
 		}
